@@ -52,7 +52,24 @@ static std::unordered_map<uint64_t, uint64_t> g_hash;
 struct Key { uint64_t id; };
 struct KeyHash { size_t operator()(const Key &k) const { auto it = g_hash.find(k.id); return it == g_hash.end() ? k.id : it->second; } };
 struct KeyEq { bool operator()(const Key &a, const Key &b) const { return a.id == b.id; } };
+#ifdef H_VALHOOK
+// instrumented mapped type: every read / write of a stored value (copy out of the table, assignment into it, the
+// functor's accesses, relocation) is reported at the moment it happens, and a read of a stored value is a
+// scheduling point - so a value used after the locks were released is both seen and schedulable
+static void val_access(const void *p, int w);
+struct Val {
+  int64_t x;
+  Val() : x(0) {}
+  Val(int64_t v) : x(v) {}
+  Val(const Val &o) { val_access(&o, 0); x = o.x; }
+  Val(Val &&o) noexcept { val_access(&o, 0); x = o.x; }
+  Val &operator=(const Val &o) { val_access(&o, 0); val_access(this, 1); x = o.x; return *this; }
+  Val &operator=(int64_t v) { val_access(this, 1); x = v; return *this; }
+  operator int64_t() const { val_access(this, 0); return x; }
+};
+#else
 using Val = int64_t;
+#endif
 using Table = libcuckoo::cuckoohash_map<Key, Val, KeyHash, KeyEq, std::allocator<std::pair<const Key, Val>>, H_SPB>;
 using LT = Table::locked_table;
 
@@ -181,6 +198,32 @@ static void yield_point(std::unique_lock<std::mutex> &lk, int me) {
 }
 
 static void emit(int tid, const std::string &s) { g_out += "EV " + std::to_string(tid) + " " + s + "\n"; }
+
+#ifdef H_VALHOOK
+static void val_access(const void *p, int w) {
+  if (!g_active || tls_tid < 0 || tls_in_hook || !g_tab) return;
+  int which = -1; size_t bidx = 0;
+  {
+    tls_in_hook = true;   // the look-up below goes through hooked accessors
+    for (int wh = 0; wh < 2 && which < 0; ++wh) {
+      auto &bc = wh ? IA::old_buckets(*g_tab) : IA::buckets(*g_tab);
+      if (bc.is_deallocated()) continue;
+      size_t n = bc.size();
+      const char *base = reinterpret_cast<const char *>(&bc[0]);
+      const char *q = reinterpret_cast<const char *>(p);
+      size_t bsz = sizeof(bc[0]);
+      if (q >= base && q < base + n * bsz) { which = wh; bidx = (size_t)(q - base) / bsz; }
+    }
+    tls_in_hook = false;
+  }
+  if (which < 0) return;
+  struct Guard { Guard() { tls_in_hook = true; } ~Guard() { tls_in_hook = false; } } guard;
+  int me = tls_tid;
+  std::unique_lock<std::mutex> lk(g_mu);
+  if (!w) yield_point(lk, me);   // before the read: whoever is scheduled here may change what is read
+  g_out += "AC " + std::to_string(me) + " " + std::to_string(which) + " " + std::to_string(bidx) + " " + std::to_string(w) + " v\n";
+}
+#endif
 
 extern "C" void libcuckoo_verif_hook(int kind, const void *obj, unsigned long a, unsigned long b) {
   if (!g_active || tls_tid < 0 || tls_in_hook) return;
@@ -330,7 +373,10 @@ static std::string run_op(int tid, const std::vector<std::string> &tk) {
   auto B = [](bool b) { return std::string(b ? " true" : " false"); };
   std::unique_ptr<LT> &lt = g_thr[tid >= 0 ? tid : 0].lt;
   try {
-    if (o == "find") { Val v = 0; bool f = t.find(K(tk[1]), v); r = B(f); if (f) r += " " + std::to_string(v); }
+    if (o == "find") { Val v = 0; bool f = t.find(K(tk[1]), v); r = B(f); if (f) r += " " + std::to_string((int64_t)v); }
+    else if (o == "findthrow") {
+      try { Val v = t.find(K(tk[1])); r = " true " + std::to_string((int64_t)v); } catch (std::out_of_range &) { r = " false"; }
+    }
     else if (o == "contains") r = B(t.contains(K(tk[1])));
     else if (o == "insert") r = B(t.insert(K(tk[1]), I(tk[2])));
     else if (o == "ioa") r = B(t.insert_or_assign(K(tk[1]), I(tk[2])));
@@ -360,10 +406,11 @@ static std::string run_op(int tid, const std::vector<std::string> &tk) {
     else if (o == "unlock") { if (lt) lt->unlock(); r = " -"; }
     else if (o == "l.insert") { auto res = lt->insert(K(tk[1]), I(tk[2])); r = B(res.second); }
     else if (o == "l.erase") r = " " + std::to_string(lt->erase(K(tk[1])));
-    else if (o == "l.find") { auto it = lt->find(K(tk[1])); r = (it == lt->end()) ? " false" : (" true " + std::to_string(it->second)); }
+    else if (o == "l.find") { auto it = lt->find(K(tk[1])); r = (it == lt->end()) ? " false" : (" true " + std::to_string((int64_t)it->second)); }
     else if (o == "l.rehash") { lt->rehash(U(tk[1])); r = " -"; }
     else if (o == "l.reserve") { lt->reserve(U(tk[1])); r = " -"; }
     else if (o == "l.clear") { lt->clear(); r = " -"; }
+#ifndef H_VALHOOK
     else if (o == "l.sin") {
       // stream a freshly built table of the given hashpower (tk[1]) with keys tk[2..] into the locked table
       std::stringstream ss;
@@ -379,6 +426,7 @@ static std::string run_op(int tid, const std::vector<std::string> &tk) {
       if (!built) r = " exc:UNMODELLED";   // the image could not be built: nothing is extracted
       else { ss >> *lt; r = " -"; }
     }
+#endif
     else r = " exc:UNMODELLED";
   } catch (libcuckoo::load_factor_too_low &) { r = " exc:load_factor_too_low";
   } catch (libcuckoo::maximum_hashpower_exceeded &) { r = " exc:maximum_hashpower_exceeded";
@@ -439,12 +487,12 @@ static void dump_final() {
   auto &locks = IA::all_locks(t).back();
   for (size_t b = 0; b < cur.size(); ++b)
     for (size_t s = 0; s < H_SPB; ++s)
-      if (cur[b].occupied(s)) m[cur[b].key(s).id].push_back(cur[b].mapped(s));
+      if (cur[b].occupied(s)) m[cur[b].key(s).id].push_back((int64_t)cur[b].mapped(s));
   if (!old.is_deallocated())
     for (size_t b = 0; b < old.size(); ++b)
       if (!locks[b & (kHarnessMaxLocks - 1)].is_migrated())
         for (size_t s = 0; s < H_SPB; ++s)
-          if (old[b].occupied(s)) m[old[b].key(s).id].push_back(old[b].mapped(s));
+          if (old[b].occupied(s)) m[old[b].key(s).id].push_back((int64_t)old[b].mapped(s));
   g_out += "CONTENTS";
   for (auto &kv : m)
     for (auto v : kv.second) g_out += " " + std::to_string(kv.first) + "=" + std::to_string(v);
@@ -508,7 +556,7 @@ int main(int argc, char **argv) {
       // contents after the set-up operations (some of them may have been refused)
       auto lt = g_tab->lock_table();
       g_out += "CONTENTS0";
-      for (auto &kv : lt) g_out += " " + std::to_string(kv.first.id) + "=" + std::to_string(kv.second);
+      for (auto &kv : lt) g_out += " " + std::to_string(kv.first.id) + "=" + std::to_string((int64_t)kv.second);
       g_out += "\n";
     }
   }
